@@ -16,7 +16,7 @@ TRUSTED_BASE = ["Lean 4.33 kernel", "axioms: propext, Quot.sound, Classical.choi
 ASSUMPTIONS = ["results of a batch are retrieved before the next batch is submitted or from another thread (the property's proviso)", "scenes of one batch are distinct (HashMap keys)"]
 LEVEL_TEXT = ("Lean 4 theorems about the protocol model, for every number of scenes and workers and every schedule (induction over traces): the monitor always equals the number of jobs of the batch not yet decremented; "
               "when nothing is left to do exactly one result per scene has been delivered; in every reachable non-final state some transition is enabled (the consumer's receive being the proviso), and with an empty channel one of the tracker's own threads can move; "
-              "every transition strictly decreases a weighted count of outstanding work, so every schedule terminates. Data refinement: scene steps of one batch commute (C04_frame), so a batch is the per-scene simple steps in any order. "
+              "every transition strictly decreases a weighted count of outstanding work, so every schedule terminates. Data refinement (Props/C06b, a simulation proof): a scene job is the step the simple trackers take, it gives the same records from states that agree up to order (predictScene_congr), two jobs of different scenes commute (predictScene_comm), hence for any two orders of the jobs of a batch every scene gets the same records and the final states agree up to order (C06_scene_order, C06_batch_order). "
               "The real batch trackers are compared scene by scene with the simple trackers, and every logged event trace is replayed as a path of the protocol model.")
 LEVEL_NOTE = "Trusted: Lean kernel; protocol model<->code tie by validated traces (sampled schedules); channel/condvar semantics assumed."
 PARTIAL = ["the renaming of ids between the batch tracker (ids drawn per candidate from the batch range) and the simple tracker (consecutive ids) is not a theorem: the two are compared by the run up to renaming; the theorems cover the protocol (one batch) and the order independence of the scene jobs"]
